@@ -42,7 +42,12 @@ theorem inv_step (w : W) (c : Cmd) (h : Inv w) : Inv (step w c) := by
       have h2 := inv_writeLine w h
       unfold Inv at *; simp only; rw [countNl_append]; omega
   | line => exact inv_writeLine w h
-  | opcode off => exact h
+  | opcode off =>
+    show Inv (addOpcode w off)
+    unfold addOpcode
+    split
+    · exact h
+    · exact h
   | opcodeInline off => exact h
 
 /-- **Line accounting.** After any sequence of writer calls the line counter is one more than the number of
@@ -57,15 +62,15 @@ theorem writer_line_inv (cs : List Cmd) : Inv (runCmds cs) := by
 /-- **Entry position (statement on a new line).** If an entry is recorded and the statement `s` is then written
 with a newline, the text written before `s` ends in a newline followed by exactly `col` blanks, and it contains
 exactly `line` newlines: in the final text `s` begins on 0-based line `line` at column `col`. -/
-theorem writer_entry_pos (w : W) (h : Inv w) (off : Int) (s : List Char) :
+theorem writer_entry_pos (w : W) (h : Inv w) (off : Int) (hoff : ¬ off < 0) (s : List Char) :
     let w1 := addOpcode w off
     let w2 := writeStmnt w1 s true
     ∃ pre, w2.out = pre ++ s ∧
       pre = w.out ++ '\n' :: spaces (w.indent * ESV.Spec.spacesPerIndent) ∧
       w1.map.getLast? = some (off, countNl pre, w.indent * ESV.Spec.spacesPerIndent) := by
   refine ⟨w.out ++ '\n' :: spaces (w.indent * ESV.Spec.spacesPerIndent), ?_, rfl, ?_⟩
-  · simp [writeStmnt, writeLine, addOpcode]
-  · simp only [addOpcode, List.getLast?_append, List.getLast?_singleton, Option.some_or]
+  · simp [writeStmnt, writeLine, addOpcode, hoff]
+  · simp only [addOpcode, hoff, if_false, List.getLast?_append, List.getLast?_singleton, Option.some_or]
     rw [countNl_append]
     have : countNl ('\n' :: spaces (w.indent * ESV.Spec.spacesPerIndent)) = 1 := by
       have := countNl_spaces (w.indent * ESV.Spec.spacesPerIndent)
@@ -92,5 +97,9 @@ theorem writer_entry_inline_counterexample :
 
 example : (runCmds [.setIndent 1, .opcode 5, .stmnt "a('''\n  x\n''');".toList true, .opcode 6, .stmnt "b();".toList true]).map
     = [(5, 1, 4), (6, 4, 4)] := by decide
+
+/-- statements written for a marker of the decompiler (offset -1) leave no entry -/
+theorem writer_no_entry_for_markers (w : W) (off : Int) (h : off < 0) : (addOpcode w off).map = w.map := by
+  simp [addOpcode, h]
 
 end ESV.C09
